@@ -271,6 +271,24 @@ def check_prologue(idx: Index, rep: Report) -> None:
         r.ok(f.fq + ":set", f"{f.loc} saved set = results typed with s0-s11 / fs0-fs11")
     else:
         r.fail(f.fq + ":set", Finding("C22.R5", f.fq, "saved-set", "the set of saved registers is no longer computed from results in Registers.S / Registers.FS", f.loc))
+    # the clobber scan reaches every operation nested in the function (loop bodies are regions until they are lowered)
+    from ..setbuild import describe as describe_set
+
+    cfg0 = CFG(f.node)
+    src = next((s_ for s_ in walk_local(f.node) if isinstance(s_, ast.Assign) and unparse(s_.targets[0]) == "used_callee_preserved_registers"), None)
+    if src is None:
+        raise AnalysisError(f"{f.fq}: computation of used_callee_preserved_registers not found")
+    val = src.value.args[0] if isinstance(src.value, ast.Call) and unparse(src.value.func) in ("OrderedSet", "set", "tuple", "list", "frozenset") and src.value.args else src.value
+    dsc = describe_set(f.node, cfg0, val, cfg0.node_of(src))
+    iters = [it for ad in dsc.adds for it in ad.iters]
+    op_sources = [it_ for tg, it_ in iters if not it_.endswith(".results") and not re.fullmatch(r"\w+\.ops", it_) or re.fullmatch(r"\w+\.ops", it_)]
+    recursive = any(re.fullmatch(r"func(\.body)?\.walk\(.*\)", it_) for _, it_ in iters)
+    if not iters:
+        raise AnalysisError(f"{f.fq}: how used_callee_preserved_registers is collected was not understood")
+    if recursive:
+        r.ok(f.fq + ":scan", f"{f.loc} clobber scan over func.walk()")
+    else:
+        r.fail(f.fq + ":scan", Finding("C22.R5", f.fq, "clobber-scan-not-recursive", f"the callee-saved registers written by the function are collected over {[it_ for _, it_ in iters]}, not over func.walk(): a register written only inside a nested region (riscv_scf.for body, frep body) is neither saved nor restored", f"{f.module.relpath}:{src.lineno}"))
     # offsets restart at 0 in both loops
     cfg = CFG(f.node)
     zeros = [s for s in walk_local(f.node) if isinstance(s, ast.Assign) and unparse(s) == "offset = 0"]
